@@ -38,6 +38,8 @@ pub mod integrate;
 pub mod interp;
 pub mod optimize;
 pub mod special;
+#[cfg(bacon_verif)]
+pub mod verif_hooks;
 
 #[cfg(test)]
 mod tests;
